@@ -461,7 +461,6 @@ func onlyWithin(cx *Ctx, f, within *ssa.Function, depth int) bool {
 	return ok && sites > 0
 }
 
-
 // handedOnlyToLazy: the method f is used only as a method value handed to constructors of lazy iterators, whose
 // parameter is captured by (and nowhere else used than in) the lazily evaluated closure they return.
 func handedOnlyToLazy(cx *Ctx, f *ssa.Function, lazy map[*ssa.Function]bool) bool {
